@@ -130,6 +130,25 @@ static void genPairFARaw(uint64_t idx, vh::Rng& g, int& nsym, RFA& a, RFA& b, st
 static FA loadFA(const RFA& a, int nsym, const char* nm) { FA x; x.LoadFromString(parser(), faToTimbuk(a, nsym, nm)); return x; }
 static FA loadFA(const RFA& a, int nsym, const char* nm, SharedDict& sd, const char* q) { FA x; x.LoadFromString(parser(), faToTimbuk(a, nsym, nm, q), sd.tr); return x; }
 
+// forked operands: Y starts as a copy of X (sharing its transition storage) and gets 1-3 extra
+// transitions / final states in place; b is what Y must denote afterwards
+static bool forkFA(vh::Rng& g, const RFA& a, int nsym, FA& X, FA& Y, RFA& b)
+{
+	static std::vector<size_t> syms;
+	if (static_cast<int>(syms.size()) < nsym) { FA tmp; auto tr = tmp.GetAlphabet()->GetSymbolTransl(); for (int i = static_cast<int>(syms.size()); i < nsym; ++i) syms.push_back((*tr)("a" + std::to_string(i))); }
+	SharedDict sd; X = loadFA(a, nsym, "A", sd, "q"); { FA c(X); Y = c; } b = a;
+	std::vector<std::pair<St, size_t>> st;
+	for (St q : a.states()) { auto it = sd.d.FindFwd("q" + vh::str(q)); if (it != sd.d.EndFwd()) st.push_back(std::make_pair(q, it->second)); }
+	if (st.empty()) return false;
+	int n = g.range(1, 3);
+	for (int i = 0; i < n; ++i)
+	{
+		if (g.chance(1, 4)) { auto f = st[g.below(st.size())]; Y.SetStateFinal(f.second); b.fin.insert(f.first); }
+		else { auto l = st[g.below(st.size())], r = st[g.below(st.size())]; int sy = static_cast<int>(g.below(nsym)); Y.AddTransition(l.second, syms[sy], r.second); b.tr.insert(std::make_tuple(l.first, sy, r.first)); }
+	}
+	return true;
+}
+
 // ======================================================================= C09
 static void caseC09(uint64_t idx, vh::Rng& g)
 {
@@ -224,6 +243,27 @@ static void caseC09(uint64_t idx, vh::Rng& g)
 			else if ((out[0] == '1') != ref) R->violation(std::string("C09/") + o[1] + (out[0] == '1' ? "/falsely-included" : "/falsely-rejected"), "");
 		}
 	}
+	if (g.chance(1, 6))
+	{	// forked operands: a copy of A extended in place against A itself, both directions
+		try
+		{
+			FA X, Y; RFA bf;
+			if (forkFA(g, a, nsym, X, Y, bf))
+			{
+				R->count("forked-operands"); R->extraEvaluation();
+				rm::JointW K = rm::jointWord({&bf, &a}, nsym); bool r1 = true; if (!K.capped) { for (auto& m : K.reach) if (K.acc(m, 0) && !K.acc(m, 1)) r1 = false; }
+				for (auto& v : vs)
+				{
+					std::string sel = std::string(v.n) + "/forked"; R->phase(sel); R->count("runs:" + sel);
+					InclParam ip; ip.SetAlgorithm(v.alg); ip.SetSearchOrder(v.ord);
+					bool r = FA::CheckInclusion(X, Y, ip); if (!r) R->violation("C09/" + sel + "/falsely-rejected", "A <= copy of A with extra transitions / final states");
+					if (!K.capped) { bool q = FA::CheckInclusion(Y, X, ip); if (q != r1) R->violation("C09/" + sel + (q ? "/falsely-included" : "/falsely-rejected"), "extended copy of A against A; extended copy:\n" + faToTimbuk(bf, nsym, "A'")); }
+					auditReports = 0; auditFirst.clear();
+				}
+			}
+		}
+		catch (std::exception& e) { R->violation("C09/forked/exception", e.what()); }
+	}
 	R->phase("default-params");
 	try { FA x = loadFA(a, nsym, "A"), y = loadFA(b, nsym, "B"); bool r = FA::CheckInclusion(x, y); if (r != ref) R->violation(std::string("C09/default-params") + (r ? "/falsely-included" : "/falsely-rejected"), ""); auditReports = 0; auditFirst.clear(); }
 	catch (std::exception& e) { R->violation("C09/default-params/exception", e.what()); }
@@ -286,6 +326,19 @@ static void caseC10(uint64_t idx, vh::Rng& g)
 		}
 		// operands unchanged (as dumps)
 		if (!(faObserve(A) == a0) || !(faObserve(B) == b0)) R->violation("C10/operand-changed", "");
+		if (g.chance(1, 5))
+		{	// forked operands: a copy of A extended in place, combined with A itself
+			FA X, Y; RFA bf;
+			if (forkFA(g, a, nsym, X, Y, bf))
+			{
+				R->count("forked-operands"); R->extraEvaluation(); RFA x0 = faObserve(X), y0 = faObserve(Y);
+				R->phase("forked: load"); same("forked/extended-copy", bf, y0); same("forked/original", a, x0);
+				R->phase("forked: Union"); { RFA u = faObserve(FA::Union(X, Y)); bin("forked/union", a, bf, u, true); }
+				R->phase("forked: Intersection"); { RFA u = faObserve(FA::Intersection(X, Y)); bin("forked/isect", a, bf, u, false); RFA v = faObserve(FA::Intersection(Y, X)); bin("forked/isect", bf, a, v, false); }
+				R->phase("forked: trimming"); { RFA u = faObserve(Y.RemoveUselessStates()); same("forked/useless", bf, u); RFA v = faObserve(Y.RemoveUnreachableStates()); same("forked/unreach", bf, v); RFA w = faObserve(Y.Reverse().Reverse()); same("forked/reverse-reverse", bf, w); }
+				if (!(faObserve(X) == x0) || !(faObserve(Y) == y0)) R->violation("C10/forked/operand-changed", "");
+			}
+		}
 		if (g.chance(1, 2))
 		{	// second level: the same operations on RESULTS of operations (objects whose internal state has a
 			// history); the reference is computed from what the operands' own dumps denote
